@@ -300,7 +300,7 @@ def check_link_loss(ctx):
     for name, first, second in (("enable", "self._communication_state.enable", "self.protocol.enable"), ("disable", "self.protocol.disable", "self._communication_state.disable")):
         m_ = gh.methods[name]
         ctx.touch(m_)
-        cfg = cfg_of(m_.node)
+        cfg = cfg_of(normal.normalised(ctx, m_))  # locals that stand for the machine / the protocol are read through
         a = [n for n in cfg.real_nodes() if any(c == first for c in n.call_names())]
         b = [n for n in cfg.real_nodes() if any(c == second for c in n.call_names())]
         ok = len(a) == 1 and len(b) == 1 and cfg.count_on_paths(lambda n: n in a + b, cfg.entry, cfg.exit, no_exc=True) == (2, 2)
